@@ -159,13 +159,13 @@ Example set_eq_spec_nonvacuous :
              mkIObj (Some 0) true [] names0 []; mkIObj (Some 1) false [] names0 []] in
   let hs := [mkObj None true [(KIdx 1, PAcc None (Some 4) true false); (KSym 0, PData (VNum 1) false true true)];
              mkObj (Some 0) true []; mkObj (Some 1) false []] in
-  (forall i, i < 3 -> i_dump (ihget hi i) = s_dump (hget hs i)) /\
+  map i_dump hi = map s_dump hs /\
   snd (fst (istep hi (OSet 2 (KIdx 1) true (VNum 7) 1))) = RBool true /\
   snd (istep hi (OSet 2 (KIdx 1) true (VNum 7) 1)) = [Ev 4 1 (Some (VNum 7))] /\
   snd (fst (sstep hs (OSet 2 (KSym 0) false (VNum 7) 2))) = RBool false /\
   snd (fst (sstep hs (OSet 2 (KStr 0) false (VNum 7) 2))) = RBool false /\
   snd (fst (sstep hs (OSet 2 (KStr 0) false (VNum 7) 1))) = RBool true.
-Proof. vm_compute. repeat split; intros; repeat (destruct i as [|i]; try reflexivity; try lia). Qed.
+Proof. vm_compute. repeat split. Qed.
 
 Theorem set_f2_case_agrees :
   map s_dump (fst (fst (sstep f2_sheap f2_op))) = map i_dump (fst (fst (istep f2_iheap f2_op))).
